@@ -56,3 +56,9 @@ TEXT["C12"] = {
     "design_ref": "DESIGN.md section 3, C12",
     "level_note": "The finite part is exhaustive for two repositories; policies with side effects or depending on anything but (name, kind) are outside the property.",
 }
+TEXT["C13"] = {
+    "technique": "property-based testing (rapid): per-method relay check against a recording backend with valid and hostile names and context scopes; differential histories Sub(ocimem,prefix) vs a second ocimem playing the restricted registry, with secret content outside the prefix and a frame check",
+    "level_text": "(a) For each of the 18 methods and generated prefixes, caller names (valid grammar; empty, dot, dot-dot, slashes, upper case, names equal to the prefix) and context scopes, the recording backend must see exactly one call whose repository is prefix/name (malformed names: empty or literally below prefix/) and whose context scope is the caller's with repository resources prefixed and nothing else changed. (b) Generated histories incl. climbing names are applied to the view and to a stand-alone registry; every outcome must be equal, the view must never serve the secret content that exists only outside the prefix, and after the history plus explicit climbing probes (read, delete, overwrite) everything outside the prefix must be unchanged.",
+    "design_ref": "DESIGN.md section 3, C13",
+    "level_note": "Sampling. Backends are assumed to treat names as opaque strings (all in-tree ones do).",
+}
